@@ -946,7 +946,7 @@ ErrOut(S, c, e) ==
 (***************************************************************************)
 (* Apply: one input line (or fault) on connection c                        *)
 (***************************************************************************)
-Faults == {"!open", "!close", "!rst", "!half", "!stall"}
+Faults == {"!open", "!close", "!rst", "!half", "!stall", "!dns"}
 
 Dispatch(S, c, cmd) ==
     LET v == cmd.verb
@@ -1002,6 +1002,10 @@ Apply(S, c, cmd) ==
          THEN Res(S, << Eof(c) >>)         \* refused: the socket is closed at once
          ELSE Res([S EXCEPT !.conns = Upd(S.conns, c, FreshConn(c)), !.connCnt = S.connCnt + 1], <<>>)
     ELSE IF v \in {"!close", "!rst", "!half"} THEN Res(Teardown(S, c), <<>>)
+    (* the reverse lookup of c's address completes (configuration item dns_lookup).  The name found replaces the   *)
+    (* address in c's own source - and in the record of the user c has REGISTERED, of nobody else.  The harness     *)
+    (* answers every lookup with the address itself, so for a correct server nothing observable changes.           *)
+    ELSE IF v = "!dns" THEN Res(S, <<>>)
     ELSE IF v = "!stall" THEN Res(SetConn(S, c, [S.conns[c] EXCEPT !.stalled = TRUE]), <<>>)
     ELSE
     LET e == Validate(cmd) IN
